@@ -54,6 +54,50 @@ func vEquiv(kind int, p []geometry.Point) Object {
 	return nil
 }
 
+// vGeom: the base geometry of a leaf object of the given kind built from p (nil for non-leaf kinds)
+func vGeom(kind int, p []geometry.Point) geometry.Geometry {
+	tri := []geometry.Point{p[0], p[1], p[2], p[0]}
+	switch kind {
+	case 0, 1:
+		return p[0]
+	case 2:
+		return geometry.NewLine([]geometry.Point{p[0], p[1]}, vNoIdx)
+	case 3:
+		return geometry.NewPoly(tri, nil, vNoIdx)
+	case 4:
+		return geometry.Segment{A: p[0], B: p[1]}.Rect()
+	}
+	return nil
+}
+
+func vGeomContains(a, b geometry.Geometry) bool {
+	switch x := b.(type) {
+	case geometry.Point:
+		return a.ContainsPoint(x)
+	case geometry.Rect:
+		return a.ContainsRect(x)
+	case *geometry.Line:
+		return a.ContainsLine(x)
+	case *geometry.Poly:
+		return a.ContainsPoly(x)
+	}
+	return false
+}
+
+func vGeomIntersects(a, b geometry.Geometry) bool {
+	switch x := b.(type) {
+	case geometry.Point:
+		return a.IntersectsPoint(x)
+	case geometry.Rect:
+		return a.IntersectsRect(x)
+	case *geometry.Line:
+		return a.IntersectsLine(x)
+	case *geometry.Poly:
+		return a.IntersectsPoly(x)
+	}
+	return false
+}
+
 // H_Obj_Dual: duality, symmetry-by-dispatch and transparency for the ordered pair of kinds (ka, kb); all coordinates symbolic.
 func H_Obj_Dual(p []int) {
 	ka, kb := p[0], p[1]
@@ -67,6 +111,12 @@ func H_Obj_Dual(p []int) {
 		vAssert(A.Intersects(B) == ea.Intersects(B), "C09.transparent-intersects")
 		vAssert(B.Contains(A) == B.Contains(ea), "C09.transparent-arg-contains")
 		vAssert(B.Intersects(A) == B.Intersects(ea), "C09.transparent-arg-intersects")
+	}
+	// leaf objects answer as the geometry-level predicates on their base geometry
+	if ga, gb := vGeom(ka, pa), vGeom(kb, pb); ga != nil && gb != nil {
+		vAssert(A.Contains(B) == vGeomContains(ga, gb), "C09.leaf-contains-is-geometry-contains")
+		vAssert(A.Within(B) == vGeomContains(gb, ga), "C09.leaf-within-is-geometry-contains")
+		vAssert(A.Intersects(B) == vGeomIntersects(ga, gb) || A.Intersects(B) == vGeomIntersects(gb, ga), "C09.leaf-intersects-is-geometry-intersects")
 	}
 	vCover("dual.done")
 }
